@@ -172,11 +172,19 @@ func c17jValueNodes(v cty.Value) int {
 //	value-larger-than-document   the decoder returned a value with more nodes than the document has
 //	                             bytes and the allocation is within 1024 bytes per value node: object
 //	                             attributes the document does not mention are filled with nulls
+//	decimal-expansion-of-huge-exponent
+//	                             the document holds number literals with decimal exponents of magnitude
+//	                             >= 10^4 and the allocation is within 64 bytes per unit of exponent: a set
+//	                             member is hashed through big.Float.String(), which expands the number
+//	                             in decimal (~16 bytes and super-linear time per unit of exponent)
 //	unexpected                   anything else (never matches a recorded finding)
 func c17jAllocCause(b []byte, r c17jRes) string {
 	limit := uint64(c17jAllocK)*uint64(len(b)) + c17jAllocC
 	if d := c17jDepth(b); d >= 64 && r.alloc <= limit*uint64(d) {
 		return "quadratic-in-nesting-depth"
+	}
+	if e := c17jSumExponents(b); e >= 10000 && r.alloc <= 64*e+limit {
+		return "decimal-expansion-of-huge-exponent"
 	}
 	if r.out == "ok" && r.v != cty.NilVal {
 		if n := c17jValueNodes(r.v); n > len(b) && r.alloc <= uint64(n)*1024+limit {
@@ -184,6 +192,21 @@ func c17jAllocCause(b []byte, r c17jRes) string {
 		}
 	}
 	return "unexpected"
+}
+
+var c17jExpRe = regexp.MustCompile(`[0-9][eE][+-]?([0-9]{1,18})`)
+
+// sum of the magnitudes of the decimal exponents spelled in the document (numbers or numeric strings)
+func c17jSumExponents(b []byte) uint64 {
+	var sum uint64
+	for _, m := range c17jExpRe.FindAllSubmatch(b, -1) {
+		var e uint64
+		fmt.Sscanf(string(m[1]), "%d", &e)
+		if e < 1<<31 {
+			sum += e
+		}
+	}
+	return sum
 }
 
 func (j *c17j) allocCheck(dec string, b []byte, t cty.Type, r c17jRes) {
@@ -872,6 +895,24 @@ func (j *c17j) families() {
 		}
 		ctx.Eval(fmt.Sprintf("family nesting %d", d), true)
 		tr(fmt.Sprintf("nesting %d", d))
+	}
+	// (b') numbers whose decimal exponent is large but inside big.Float's range, as set members: the set
+	// hash formats them (big.Float.String), which costs ~16 bytes and super-linear time per unit of exponent
+	{
+		nums := []string{"1e1000000"}
+		if ctx.Thorough {
+			nums = []string{"1e1000000", "1e10000000", "1e-100000"}
+		}
+		for _, s := range nums {
+			b := []byte("[" + s + "]")
+			t0 := time.Now()
+			r := j.unmarshalBig(b, cty.Set(cty.Number), "huge-exponent-set-member", c17jLit("json.Unmarshal", b, cty.Set(cty.Number)))
+			ctx.Eval("family exponent "+s, true)
+			ctx.Tag(fmt.Sprintf("family:set-of-%s:%s:%.1fs", s, r.out, time.Since(t0).Seconds()))
+			// the same literal where nothing formats it is cheap
+			j.unmarshal(b, cty.List(cty.Number), false)
+		}
+		tr("exponents")
 	}
 	// (c) crash isolation: ImpliedType recurses once per '[' with no depth limit; a few megabytes of
 	// '[' exhaust the 1 GB goroutine stack — a fatal error, not a panic.  In a worker process.
